@@ -440,3 +440,4 @@ LEVEL_TEXT = LEVEL_TEXT
 
 # level text addendum (cases added after the seeded-change rounds)
 LEVEL_TEXT = LEVEL_TEXT + ' Also: odd and even mute windows down to 1 sample, 1 channel, 1 sample, ranges as a list, the same call repeated on the same range array, and an IEEE lemma (cvc5): flag <=> 100 k > a nc for every nc <= 400, k <= nc and proportion a/100.'
+LEVEL_TEXT = LEVEL_TEXT + ' Round 7: missing (NaN) samples do not change the denominator of the proportion; the mute gain is exactly 0 on flagged samples also when scipy.signal.convolve is only known up to rounding noise (its FFT method).'
